@@ -105,6 +105,11 @@ def _slices(rec, dreye, name, P, d, sig, scale, reuse_buffer):
         variants = [("reused-buffer", buf)]
     else:
         variants = [("float", P)] + ([("int", P.astype(np.int64))] if np.all(P == np.round(P)) else [])
+        # ... and as small unsigned integers (image / DAC style data) when the values fit: the slice must not depend on the dtype
+        if np.all(P == np.round(P)) and P.min() >= 0 and P.max() <= 255:
+            variants.append(("uint8", P.astype(np.uint8)))
+        elif np.all(P == np.round(P)) and P.min() >= 0 and P.max() <= 65535:
+            variants.append(("uint16", P.astype(np.uint16)))
     for c, (dt, Parg) in itertools.product(cs, variants):
         rec.path()
         rec.trans()
